@@ -2286,6 +2286,27 @@ pub fn run(run: &mut Run, seed: u64, thorough: bool, replay: Option<&str>, corpu
     ] {
         cases.push(format!("ripc:.{}", hex(st.as_bytes())));
     }
+    // 4a. every fill style (solid, the ten pattern rows, user pattern) x viewports inside / wider / taller / larger than the
+    // 640x350 window x bars and viewport clears that touch the last row, the last column and the cells beyond them
+    // (bar_rect has one loop for solid fills and one for patterns; a regression in the pattern loop needs all three)
+    {
+        let mut n = 0usize;
+        for vp in ["", "|v0000ZZ9Q", "|v00009QZZ", "|v0000ZZZZ", "|v0A0AZZZZ", "|v0A0A1E1E"] {
+            for style in 0..=12u32 {
+                // quick tier: empty, solid, two pattern rows and the user pattern; every style in thorough
+                if !thorough && ![0u32, 1, 2, 9, 12].contains(&style) {
+                    continue;
+                }
+                let sty = format!("|S{}{}0F", char::from_digit(style / 36, 36).unwrap().to_ascii_uppercase(), char::from_digit(style % 36, 36).unwrap().to_ascii_uppercase());
+                for draw in ["|B009KZZ9P", "|B0000ZZZZ", "|BHR00HR9P", "|E", "|B009P0A9P"] {
+                    let st = format!("!{}{}{}|\n", vp, sty, draw);
+                    cases.push(format!("ripc:.{}", hex(st.as_bytes())));
+                    n += 1;
+                }
+            }
+        }
+        run.extra.push(("rip_fill_style_x_viewport_streams".into(), n.to_string()));
+    }
     let n_ripc = if thorough { 6000 } else { 250 };
     for _ in 0..n_ripc {
         cases.push(format!("ripc:.{}", hex(&ripc_stream(&mut rng))));
